@@ -202,7 +202,45 @@ def shard_sequence(arg):
     return rep
 
 
+def generic_ops(n, rng):
+    import math
+    ops = []
+    for layer in range(2):
+        for q in range(n):
+            ops.append(["ry", [q], [rng.uniform(0.2, math.pi - 0.2)]])
+            ops.append(["rz", [q], [rng.uniform(0.2, 2 * math.pi - 0.2)]])
+        order = list(range(n))
+        rng.shuffle(order)
+        for a, b in zip(order, order[1:]):
+            ops.append(["cx", [a, b]])
+            ops.append(["rx", [b], [rng.uniform(0.2, math.pi - 0.2)]])
+    return ops
+
+
+def shard_generic(arg):
+    """generic (no vanishing expectation values by symmetry) pure states: at least one per configuration in every run, so that a
+    sign or label slip confined to a few of the 4^n operators of one configuration cannot hide behind zeros"""
+    n, name, count, seed = arg
+    rep = fw.Report()
+    for i in range(count):
+        rng = fw.rng_for("c10gen", seed, n, name, i)
+        ops = generic_ops(n, rng)
+        case = {"n": n, "connectivity": name, "components": [{"w": [1, 1], "ops": ops}], "zero_seed": i}
+        fails, want = check_tomography(case)
+        nz = sum(1 for v in want.values() if abs(v) > 1e-6) if want else 0
+        rep.case((n, name, repr(ops)) if (want is not None and interesting(want, n)) else None,
+                 {"n": n, "connectivity": name, "state": "generic", "nonzero_expectations": nz, "of": 4 ** n} if i == 0 and n == 6 else None)
+        rep.count("config", f"{n}-{name}")
+        rep.count("state_kind", "pure(generic)")
+        rep.count("generic_state_nonzero_fraction", f"{round(nz / 4 ** n, 1)}")
+        for key, msg, extra in fails:
+            rep.fail(key, case, msg, **extra)
+    return rep
+
+
 def shard_any(arg):
+    if arg[0] == "generic":
+        return shard_generic(arg[1:])
     if arg[0] == "rank":
         return shard_rank(arg[1:])
     if arg[0] == "sequence":
@@ -214,7 +252,7 @@ def run(ctx):
     q = ctx.quick
     args = []
     # one Hypothesis search per configuration; small n: many states; n = 5, 6: few (33 / 65 circuits x 4^n labels each)
-    per = {2: 20, 3: 30, 4: 20, 5: 3, 6: 2} if q else {2: 300, 3: 500, 4: 400, 5: 60, 6: 30}
+    per = {2: 20, 3: 30, 4: 20, 5: 2, 6: 1} if q else {2: 300, 3: 500, 4: 400, 5: 60, 6: 30}
     for ci, (n, name) in enumerate(coupling.CONFIGS):
         parts = 1 if q else (4 if n <= 4 else 6)
         for part in range(parts):
@@ -222,9 +260,11 @@ def run(ctx):
     for (n, name) in coupling.CONFIGS:
         if n <= (3 if q else 4):
             args.append(("rank", n, name, {2: 24, 3: 160, 4: 600}[n], ctx.seed * 1000 + 500 + n))
+    for (n, name) in coupling.CONFIGS:
+        args.append(("generic", n, name, (2 if n <= 4 else 1) * (1 if q else 12), ctx.seed))
     for n in (2, 3, 4, 5, 6):
         args.append(("sequence", n, {2: 3, 3: 3, 4: 2, 5: 1, 6: 1}[n] * (1 if q else 10), ctx.seed))
-    args.sort(key=lambda a: 0 if (a[0] == "sequence" and a[1] >= 5) else 1)
+    args.sort(key=lambda a: 0 if (a[0] == "sequence" and a[1] >= 5) else (1 if (a[0] == "generic" and a[1] == 6) else 2))
     rep = fw.run_shards(ctx, "props.c10", "shard_any", args)
     rep.extra["exhaustive"] = False
     return rep
